@@ -538,3 +538,79 @@ def rf13w(run):
         run.violation(rule, g, 'range sum', 'a number below 2^28 plus the bias %d plus a position up to %d does not fit in 32 bits'
                       % (max(bias), max(bounds)))
     return n
+
+
+# ---------------------------------------------------------------------------------------------
+# RF13h: encoder and decoder chain the check hash over the same (non-empty) buffers
+# ---------------------------------------------------------------------------------------------
+
+def _hash_update_sites(tu):
+    """[(function, call-or-assignment node, length expression)] of the sites that chain check_hash; a helper whose length is its
+    parameter is replaced by its call sites"""
+    direct = []
+    for f in tu.func_list:
+        if not f.file.endswith('/mir-reduce.h'):
+            continue
+        for x in f.walk():
+            if x['k'] == 'BinaryOperator' and x['op'] == '=' and F.src(F.strip(x['c'][0])).endswith('check_hash'):
+                r = F.strip(x['c'][1])
+                if r['k'] == 'CallExpr' and r.get('callee') == 'mir_hash_strict':
+                    direct.append((f, x, F.strip(F.call_args(r)[1])))
+    sites = []
+    for f, x, ln in direct:
+        if ln['k'] == 'DeclRefExpr' and ln.get('dk') == 'param':
+            pi = [i for i, p in enumerate(f.params) if p['n'] == ln['n']][0]
+            for g in tu.func_list:
+                for c in g.walk():
+                    if c['k'] == 'CallExpr' and c.get('callee') == f.name:
+                        sites.append((g, c, F.strip(F.call_args(c)[pi]), 'through %s' % f.name))
+        else:
+            sites.append((f, x, ln, 'direct'))
+    return sites
+
+
+def rf13h(run):
+    import rf_proto
+    rule = 'RF13h'
+    run.rule(rule, 'mir-reduce.h: hashing zero bytes changes the check hash, and the encoder flushes its last buffer where the decoder meets the '
+                   'end tag with a possibly empty buffer (input length a multiple of the buffer length): every site that chains the check hash '
+                   '(directly or through a helper) is dominated by a test that its length is not zero, on both sides')
+    tu = run.tu('mir')
+    sites = _hash_update_sites(tu)
+    if len(sites) < 3:
+        raise F.AnalysisBroken('check-hash update sites of mir-reduce.h not found (%d)' % len(sites))
+    n = 0
+    for f, node, ln, how in sites:
+        run.functions_analysed.add(('mir', f.name))
+        cfg = f.cfg
+        bid = cfg.block_of(node)
+        lt = F.src(ln)
+        proof = None
+        for ctext, truth in rf_proto.dominating_conditions(cfg, bid):
+            c = ctext.replace(' ', '')
+            l = lt.replace(' ', '')
+            import re
+            while c.startswith('(') and c.endswith(')') and c.count('(') == c.count(')'):
+                c = c[1:-1]
+            m = re.fullmatch(re.escape(l) + r'(==|!=|>=|>)([0-9a-fx()<+*-]+)', c)
+            if not m:
+                continue
+            try:
+                k = int(eval(m.group(2), {'__builtins__': {}}, {}))
+            except Exception:
+                continue
+            op = m.group(1)
+            nz = (op == '==' and k == 0 and not truth) or (op == '!=' and k == 0 and truth) or (op == '>=' and k >= 1 and truth) \
+                or (op == '>' and k >= 0 and truth)
+            if nz:
+                proof = '%s is %s' % (ctext, 'true' if truth else 'false')
+        # the length must not be assigned between the test and the site inside the site's own block
+        n += 1
+        run.ob(rule, (f.name, node['l']), proof is not None, {'site': '%s:%d %s (%s)' % (f.relfile(), node['l'], f.name, how), 'length': lt,
+                                                              'proof': proof or 'NO NON-ZERO TEST'})
+        if proof is None:
+            run.violation(rule, f, 'check hash over %s bytes' % lt, 'the check hash is chained over %s bytes (%s) without a dominating test that '
+                          'the length is not zero: hashing zero bytes changes the hash, the other side does not hash an empty buffer, and a '
+                          'complete unmodified stream whose length is 0 or a multiple of the buffer length is reported as damaged' % (lt, how),
+                          line=node['l'])
+    return n
